@@ -305,7 +305,9 @@ static void do_run(void) {
 		if (waiting < lo || waiting > hi) { HF("waiting-count", "run reports %zu waiting, accepted-returned=%d, possible config notices=%d", waiting, outstanding(), W.conf_pending); W.violated = 1; }
 		KSI_AsyncService_getPendingCount(W.svc, &pend);
 		KSI_AsyncService_getReceivedCount(W.svc, &recvd);
-		if (pend + recvd < lo || pend + recvd > hi) { HF("pending-count", "pending %zu + received %zu, accepted-returned %d (possible config notices %d)", pend, recvd, outstanding(), W.conf_pending); W.violated = 1; }
+		/* each counter on its own as well (a counter that has wrapped below zero can hide in the sum) */
+		if (pend > lo || recvd > hi) { HF("pending-count", "pending %zu, received %zu, but only %d request(s) are accepted and not yet returned (possible config notices %d)", pend, recvd, outstanding(), W.conf_pending); W.violated = 1; }
+		else if (pend + recvd < lo || pend + recvd > hi) { HF("pending-count", "pending %zu + received %zu, accepted-returned %d (possible config notices %d)", pend, recvd, outstanding(), W.conf_pending); W.violated = 1; }
 	}
 }
 
